@@ -110,7 +110,11 @@ func appendFile(path, s string) error {
 }
 
 // runHistory returns ("", ...) when delivered == expected.
-func runHistory(base string, idx int, hist []string, preexisting bool) (what string, got, want []string, inconclusive bool) {
+func runHistory(base string, idx int, hist []string, preMode int) (what string, got, want []string, inconclusive bool) {
+	// preMode 0: empty file; 1: terminated content present before tailing begins
+	// (nothing is primed: the first step may be a truncation of a file the
+	// tailer has not read a byte of); 2: content ending in an unterminated line
+	preexisting := preMode == 2
 	dir := filepath.Join(base, fmt.Sprintf("h%d", idx))
 	_ = os.MkdirAll(dir, 0o755)
 	defer os.RemoveAll(dir)
@@ -119,6 +123,9 @@ func runHistory(base string, idx int, hist []string, preexisting bool) (what str
 	pre := ""
 	if preexisting {
 		pre = "old1\nold2\npartial-old"
+	}
+	if preMode == 1 {
+		pre = "old line one\nold line two, long enough to exceed what the first new lines add up to ....................\n"
 	}
 	if err := os.WriteFile(w.path, []byte(pre), 0o644); err != nil {
 		return "setup: " + err.Error(), nil, nil, true
@@ -314,7 +321,13 @@ func TestC16(t *testing.T) {
 	}
 	inconc := 0
 	for i, h := range hists {
-		pre := i%5 == 4
+		pre := 0
+		switch i % 5 {
+		case 3:
+			pre = 1
+		case 4:
+			pre = 2
+		}
 		what, got, want, inc := runHistory(base, i, h, pre)
 		r.Eval(1)
 		for _, o := range h {
